@@ -21,6 +21,9 @@ type Clause struct {
 	Expr  *SExpr
 	Line  int
 	File  string
+	// Assumed: a "postulate" - a postcondition that callers may use but that is NOT checked against the function's body
+	// (the part of an otherwise verified function's contract that defines ghost/uninterpreted notions); reported as an assumption
+	Assumed bool
 }
 
 type LoopSpec struct {
@@ -122,7 +125,7 @@ type SpecDB struct {
 	Errors      []string
 }
 
-var clauseKW = map[string]bool{"guarded": true, "typeinv": true, "functype": true, "func": true, "requires": true, "ensures": true, "modifies": true, "modifies-also": true, "loop": true, "at": true,
+var clauseKW = map[string]bool{"guarded": true, "typeinv": true, "functype": true, "func": true, "requires": true, "ensures": true, "modifies": true, "modifies-also": true, "postulate": true, "loop": true, "at": true,
 	"pure": true, "trusted": true, "inline": true, "may-panic": true, "replay:": true, "spec": true, "ghost": true, "field": true,
 	"axiom": true, "lemma": true, "bytes:": true, "safety": true, "noverify": true, "inline-callee": true, "opaque-callee": true, "end": true, "prop": true, "package": true}
 
@@ -224,10 +227,14 @@ func (db *SpecDB) LoadFile(path, pkgPath string) error {
 					cur.Props[f] = true
 				}
 			}
-		case "requires", "ensures":
+		case "requires", "ensures", "postulate":
 			c := mk(kw, rest, rc.line)
 			if c == nil {
 				continue
+			}
+			if kw == "postulate" {
+				c.Assumed = true
+				kw = "ensures"
 			}
 			if curLemma != nil {
 				if kw == "requires" {
